@@ -10,7 +10,7 @@ cd /verif/seeded
 SEEDS=${@:-$(ls -d C*-* | sort -t- -k1,1 -k2,2n)}
 mkdir -p /root/scratch/regress
 one() {
-  s=$1; P=${s%%-*}
+  s=$1; P=$(python3 -c "import json,sys; m=json.load(open('/verif/seeded/$1/meta.json')); print(m.get('check') or m.get('property'))" 2>/dev/null || echo ${s%%-*})
   WT=/root/scratch/regress/wt-$s
   rm -rf "$WT"; git -C /repo worktree prune
   git -C /repo worktree add -q "$WT" HEAD || { echo "$s WORKTREE-FAIL"; return; }
